@@ -55,7 +55,6 @@ type Violation struct {
 	Trace    []string `json:"trace,omitempty"`
 }
 
-
 // InternalError is a failure of the harness/explorer itself (never reported as VIOLATION).
 type InternalError struct{ Msg string }
 
